@@ -6,6 +6,7 @@ Clauses (one sub-check each):
   surface_block          df.surface_3D.is_at_surface: flags == nodes on the boundary of a brick block mesh
   mapping_same_points    df.meshmapper.process      : mapping a nodal field onto (a selection of) its own points returns it
   mapping_linear         df.meshmapper.process      : a linear field mapped onto interior points gives the linear values
+  mapping_held_accessor  df.meshmapper (held)       : results do not depend on what the accessor object mapped before
   hotspot_components     df.hotspot.calc            : labelled set, connected components, numbering by descending peak
 
 Oracles are closed forms (g, the grid index of a node, g.p + c) or the union-find model in vp/refs/hotspot_ref.py.
@@ -33,10 +34,12 @@ PROP = "C19"
 nontrivial_rule(PROP, "Non-trivial (gradients, surface, mesh mapping): the node/element numbering is not 1..N in row order "
                       "(offset, gaps, permuted ids, shuffled or interleaved rows) or the geometry is not the unit grid "
                       "(perturbed nodes or an affine map), or the source of a mapping is a point cloud; additionally for the surface clause the block has an interior node or "
-                      ">= 2 cells, for the linear mapping clause >= 1 target point is no source point.  Hot spot: >= 2 table rows "
+                      ">= 2 cells, for the linear mapping clause >= 1 target point is no source point; every call-history case (two different sources) counts.  Hot spot: >= 2 table rows "
                       "and at least one row below the threshold or >= 2 hot spots.")
 assumptions(PROP, [
-    "block meshes of 1..3 cells per direction (bricks) resp. <= 8 cells split into 5 or 6 tetrahedra; node displacement <= 0.15 cell "
+    "block meshes of 1..3 cells per direction (bricks) resp. <= 8 cells split into 5 or 6 tetrahedra, or mixed (per cell a brick "
+    "or its tetrahedra, both element types present, either type may carry the lowest element id; nodes are shared, faces between a "
+    "brick and tetrahedra do not match, which neither gradient operator looks at); node displacement <= 0.15 cell "
     "sizes per component (0.2 admits singular corner Jacobians, which the property excludes as degenerate), affine maps with "
     "stretch ratio <= 16 and shear <= 0.25",
     "gradient tolerance 1e-11 * max|f| / (shortest node distance in an element): the operators difference nodal values, so the "
@@ -46,6 +49,9 @@ assumptions(PROP, [
     "rows of different elements may be interleaved as long as the relative order within an element is kept",
     "mesh mapping: nodal fields only (one value per coordinate); tolerance 1e-9 * max|value| (barycentric weights carry the "
     "rounding error eps * cond(simplex); largest error observed over 3000 generated cases: 3e-14 of that scale); interior target points are convex combinations of all nodes of one element / of a spanning simplex plus further points, every weight >= 1/43",
+    "call history (mapping_held_accessor): two sources with equal index, different coordinates and values, histories ab/aba/bab/aab "
+    "through one accessor object; held result == fresh-accessor result (same NaN pattern, values within 1e-9 * max|value|) and the "
+    "closed-form same-points oracle on the held result",
     "hot spot: the threshold is the float product limit_frac * max exactly as the docstring states it (>=); value rows are unique "
     "(node_id, element_id) pairs; artefact_threshold is not exercised",
 ])
@@ -93,6 +99,10 @@ def _mesh_labels(case, ctx):
               "cells:%d" % (case["n"][0] * case["n"][1] * case["n"][2]))
     if case["rows"]["mode"] != "blocks" and gm.is_interleaved(case):
         ctx.label("rows_really_interleaved")
+    if case["kind"] == "mixed":
+        con = gm.elements_of(case)
+        first = min(range(len(con)), key=lambda e: case["eid"][e])
+        ctx.label("mixed_lowest_element_id_is_" + ("brick" if len(con[first]) == 8 else "tetrahedron"))
     if case.get("pert"):
         ctx.label("perturbed")
     if case["A"] != [[1.0, 0.0, 0.0], [0.0, 1.0, 0.0], [0.0, 0.0, 1.0]]:
@@ -141,7 +151,8 @@ def _grad_tol(case, g, c):
 @st.composite
 def _gradient_cases(draw, tier, row_modes):
     big = tier != "quick"
-    kind = draw(st.sampled_from(["hex", "hex", "tet5", "tet6"]))
+    # "mixed": bricks and tetrahedra in one table (the gradient_3D docstring: "It also works for mixed meshes")
+    kind = draw(st.sampled_from(["hex", "mixed", "tet5", "hex", "tet6", "mixed"]))
     mesh = draw(gm.block_meshes(kinds=(kind,), row_modes=row_modes,
                                 max_cells=(27 if kind == "hex" else 8) if not big else (27 if kind == "hex" else 12)))
     g = draw(gm.linear_fields())
@@ -237,14 +248,14 @@ def surface_block(case, ctx):
 
 # ------------------------------------------------------------------------------------------ mesh mapping
 @st.composite
-def _clouds(draw, dim):
+def _clouds(draw, dim, extra=None):
     """Point cloud spanning the space: distinct cells of a 4^dim lattice, one point per cell at an offset in [0.1, 0.9]
     (minimum distance 0.2); the first dim+1 points sit in the corner cells (0,0,..), (3,0,..), (0,3,..), .. and therefore
     always form a proper simplex (a flat cloud is no mesh of that dimension: Qhull rejects it).  Then an affine map."""
     ncell = 4 ** dim
     anchors = [0] + [3 * 4 ** d for d in range(dim)]        # cells (0,..), (3,0,..), (0,3,..), ...: always a proper simplex
     rest = [c for c in range(ncell) if c not in anchors]
-    m = draw(st.integers(1, min(20, len(rest))))
+    m = draw(st.integers(1, min(20, len(rest)))) if extra is None else extra
     cells = anchors + draw(st.lists(st.sampled_from(rest), min_size=m, max_size=m, unique=True))
     pts = []
     for cidx in cells:
@@ -443,6 +454,88 @@ def mapping_linear(case, ctx):
     scale = max(abs(f(p)) for p in coords)
     res = target.meshmapper.process(from_df, "val")
     _check_mapped(res, target, want, 1e-9 * scale, "mapping_linear", ctx, coords)
+
+
+# ------------------------------------------------------------------------------------------ mapping, call history
+@st.composite
+def _held_cases(draw, tier):
+    """Two source meshes with the SAME index (same node / element ids, same row order) but different coordinates
+    (a second set of node displacements and another affine map; a second cloud of as many points) and different
+    nodal values, mapped one after the other through ONE held accessor of the target."""
+    case = draw(_mapping_sources(tier))
+    npts = case["npoints"]
+    if case["src"] == "mesh":
+        N = gm.node_count(case["mesh"]["n"])
+        aff = draw(gm.affine_maps())
+        case["geom_b"] = {"pert": draw(st.lists(st.lists(st.floats(-gm.PERT_MAX, gm.PERT_MAX), min_size=3, max_size=3),
+                                                min_size=N, max_size=N)), "A": aff["A"], "t": aff["t"]}
+    else:
+        dim = len(case["points"][0])
+        case["points_b"] = draw(_clouds(dim, extra=npts - dim - 1))
+    case["values_a"] = draw(st.lists(_values, min_size=npts, max_size=npts))
+    case["values_b"] = draw(st.lists(_values, min_size=npts, max_size=npts))
+    case["sequence"] = draw(st.sampled_from(["ab", "ab", "aba", "bab", "aab"]))
+    case["target"] = draw(st.sampled_from(["points_of_b", "points_of_a", "points_of_both"]))
+    case["tindex"] = draw(st.sampled_from(["range", "ids", "multi"]))
+    return case
+
+
+def _same_or_both_nan(x, y):
+    return (x == y) or (x != x and y != y)
+
+
+@subcheck(PROP, "mapping_held_accessor", strategy=_held_cases, quick=800, thorough=20000,
+          doc="call history: one held target.meshmapper maps two source meshes with equal index but different coordinates in "
+              "sequence; every result equals the result of a fresh accessor, and the own points of a source get its field back")
+def mapping_held_accessor(case, ctx):
+    _pylife()
+    va, vb = case["values_a"], case["values_b"]
+    if case["src"] == "mesh":
+        case_a = dict(case, values=va)
+        mesh_b = dict(case["mesh"], pert=case["geom_b"]["pert"], A=case["geom_b"]["A"], t=case["geom_b"]["t"])
+        case_b = dict(case, mesh=mesh_b)
+        _mesh_labels(case["mesh"], ctx)
+    else:
+        case_a = case
+        case_b = dict(case, points=case["points_b"])
+    src = {}
+    src["a"], rows_a = _source_frame(case_a, lambda i, p: va[i])
+    src["b"], rows_b = _source_frame(case_b, lambda i, p: vb[i])
+    if not src["a"].index.equals(src["b"].index):
+        raise AssertionError("harness: the two sources must carry the same index")
+    rows = {"a": rows_a, "b": rows_b}
+    vals = {"a": va, "b": vb}
+    own = {"points_of_b": "b", "points_of_a": "a", "points_of_both": "ab"}[case["target"]]
+    tpoints, origin = [], []            # origin: (source letter, point number) of every target point
+    for letter in own:
+        seen = set()
+        for i, p in rows[letter]:
+            if i not in seen:
+                seen.add(i)
+                tpoints.append(p)
+                origin.append((letter, i))
+    target = _target_frame(tpoints, case["tindex"])
+    ctx.label("src:" + case["src"], "sequence:" + case["sequence"], "target:" + case["target"])
+    ctx.nontrivial()
+    scale = max(max(abs(v) for v in va), max(abs(v) for v in vb))
+    mapper = target.meshmapper                       # held: the same accessor object for the whole history
+    for step, letter in enumerate(case["sequence"]):
+        held = mapper.process(src[letter], "val")
+        fresh = target.copy().meshmapper.process(src[letter], "val")
+        what = "mapping_held_accessor step %d (source %s of history %r)" % (step + 1, letter.upper(), case["sequence"])
+        if not held.index.equals(target.index):
+            raise Violation("%s: result index differs from the index of the mesh mapped onto" % what, bucket="held:index")
+        h, f = held["val"].to_numpy(dtype=float), fresh["val"].to_numpy(dtype=float)
+        for i in range(len(h)):
+            if not (_same_or_both_nan(float(h[i]), float(f[i])) or abs(h[i] - f[i]) <= 1e-9 * scale):
+                raise Violation("%s: target point %d (%r) got %r from the held accessor but %r from a fresh accessor"
+                                % (what, i, tpoints[i], float(h[i]), float(f[i])), bucket="held:history_dependent")
+        # closed form: the own points of this source get its nodal values back (F19_a: NaN at hull-boundary points)
+        sel = [i for i, (l, _) in enumerate(origin) if l == letter]
+        if sel:
+            sub = held.iloc[sel]
+            _check_mapped(sub, target.iloc[sel], [vals[letter][origin[i][1]] for i in sel], 1e-9 * scale,
+                          "mapping_held_accessor", ctx, [p for _, p in rows[letter]])
 
 
 # ------------------------------------------------------------------------------------------ hot spots
